@@ -7,10 +7,17 @@
    Compared: the output sequence exactly (numbers by exact value, Go representation projected away),
    the kind of ending, the class of the first uncaught error and the value carried by error(x) /
    halt_error; message texts are not compared (a plain errors.New message is compared only when the
-   model produces one: `input` exhausted = "break").  Definitions only. *)
+   model produces one: `input` exhausted = "break").
+
+     (static <ast> <hex program text: ignored>)     the compiler rejected the program with "function not defined",
+                                                     "variable not defined" or "label not defined"
+   Verdict: ok when Scope.scope_check finds an unbound name, (bad compiles-in-model) when it finds none.
+   Conversely a `run` line (the compiler accepted the program) whose program has an unbound name gets
+   (bad (static-error-expected <name>)).  Programs Scope does not judge (imports, computed pattern keys)
+   are skipped for this question only.  Definitions only. *)
 From Coq Require Import String.
 From Coq Require Import List ZArith NArith Bool.
-From Verif Require Import common.Sexp sem.JV sem.Syntax sem.AstDecode sem.Natives sem.Sem gen.GenBuiltins.
+From Verif Require Import common.Sexp sem.JV sem.Syntax sem.AstDecode sem.Natives sem.Sem sem.Scope gen.GenBuiltins.
 Import ListNotations.
 
 Definition default_fuel : nat := N.to_nat 3000.
@@ -61,12 +68,29 @@ Definition ending_agrees (n : nat) (m : ending) (impl : sexp) : bool :=
   | EndSkip _ => false
   end.
 
+Definition scope_of (q : query) : sres := scope_check builtin_defs native_arities q.
+
 Definition run_sexp (n : nat) (e : sexp) : sexp :=
   match e with
+  | SList [k; ast; _] =>
+      if atom_is "static" k then
+        match dec_query n ast with
+        | Some q =>
+            match scope_of q with
+            | SUndef _ => A "ok"
+            | SOk => SList [A "bad"; A "compiles-in-model"]
+            | SDecline => SList [A "skip"; A "scope-not-judged"]
+            end
+        | None => A "undecodable"
+        end
+      else A "undecodable"
   | SList [k; Atom capa; ast; inp; rs; SList ins; SList outs; ending; _] =>
       if atom_is "run" k then
         match parse_N capa, dec_query n ast, dec_jv n inp, dec_bool rs, map_opt (dec_jv n) ins, map_opt (dec_jv n) outs with
         | Some capn, Some q, Some v, Some rsens, Some ins, Some outs =>
+            match scope_of q with
+            | SUndef name => SList [A "bad"; SList [A "static-error-expected"; Atom name]]
+            | _ =>
             let '(mouts, mend) := observe builtin_defs default_fuel (N.to_nat capn) rsens
                                           (map normalize ins) q (normalize v) in
             match mend with
@@ -74,6 +98,7 @@ Definition run_sexp (n : nat) (e : sexp) : sexp :=
             | _ =>
                 if all_obs_eq mouts (map normalize outs) && ending_agrees n mend ending then A "ok"
                 else SList [A "bad"; SList (map enc_jv mouts); enc_ending mend]
+            end
             end
         | _, _, _, _, _, _ => A "undecodable"
         end
